@@ -45,6 +45,7 @@ type writeRec struct {
 }
 
 type VC struct {
+	frozen    map[*Term]Val // write-once captured locals: reference of the variable -> the value it was given
 	prog      *Prog
 	fn        *ssa.Function
 	fc        *FuncContract
@@ -1139,6 +1140,9 @@ func (vc *VC) execLoop(fx *FuncCtx, L *Loop, st *State, fr *Frame, ins []*State)
 		vc.assume(h, g)
 	}
 	f := newFrame(fr)
+	// the state at the loop head, before the header block runs (execRegion works on h in place, and the header of a
+	// `for { select ... }` loop already receives from channels)
+	hHead := h.clone()
 	exits, backs := vc.execRegion(fx, L, h, f, hphi)
 	for t, ss := range exits {
 		exitsAll[t] = append(exitsAll[t], ss...)
@@ -1146,7 +1150,7 @@ func (vc *VC) execLoop(fx *FuncCtx, L *Loop, st *State, fr *Frame, ins []*State)
 	if len(backs) > 0 && spec != nil && len(spec.Iterates) > 0 {
 		b := vc.mergeStates(backs)
 		benv := vc.specEnvFor(fx, b, f)
-		benv.prev = h
+		benv.prev = hHead
 		for _, c := range spec.Iterates {
 			g, err := benv.evalBool(c.Expr)
 			if err != nil {
